@@ -27,6 +27,9 @@ ENC = {
     "float/nan": dict(ml=NAN, classes=[0.0, 1.0, 2.0], dtype=float),
     "int/-1": dict(ml=-1, classes=[0, 1, 2], dtype=int),
     "int10/0": dict(ml=0, classes=[10, 20, 30], dtype=int),
+    # sentinels that coincide with an *encoded* class index (0..K-1): internal code that mixes the label spaces confuses them
+    "int1/0": dict(ml=0, classes=[1, 2, 3], dtype=int),
+    "intgap/2": dict(ml=2, classes=[0, 1, 3], dtype=int),
     "str/empty": dict(ml="", classes=["a", "b", "c"], dtype=str),
     "obj/None": dict(ml=None, classes=["a", "b", "c"], dtype=object),
 }
@@ -35,7 +38,7 @@ ENC = {
 def bounds(tier):
     q = tier == "quick"
     return {
-        "encodings": list(ENC) if not q else ["float/nan", "int10/0", "str/empty", "obj/None"],
+        "encodings": list(ENC) if not q else ["float/nan", "int10/0", "int1/0", "intgap/2", "str/empty", "obj/None"],
         "label_shapes": [[1], [2], [3], [1, 1], [1, 2], [2, 1], [2, 2], [3, 2], [2, 3]] if not q else [[1], [2], [1, 2], [2, 2], [3, 2], [2, 3]],
         "label_shapes_all_encodings": [[2], [2, 2]],
         "symbols": "missing + 3 classes",
